@@ -3,6 +3,10 @@ import time
 from elab import passcheck
 
 
+def _reraise():
+    raise
+
+
 # ----------------------------------------------------------------------------- AES round steps by SMT
 def _bv_tbl(z3, table, b):
     """table lookup as an if-then-else chain (built like elab/n2smt.rom_read so that equal tables
@@ -277,7 +281,8 @@ def _call(task):
     try:
         return fn(**task['kw'])
     except Exception:
-        return dict(failed=True, crashed=True, observed=traceback.format_exc()[-900:], expected='-')
+        from vlib.guard import guarded
+        return guarded(_reraise)
 
 
 def run(ctx):
